@@ -121,11 +121,13 @@ func (f *Frame) provStoreObl(p Ptr, v Val, why, pos string) {
 		return
 	}
 	var ref string
+	ext := s.extRefs
 	switch sv.Ty.Underlying().(type) {
 	case *types.Slice:
 		ref = sliceField("s.ref", sv.T)
 	case *types.Map:
 		ref = sv.T
+		ext = s.extMaps
 	default:
 		return
 	}
@@ -133,7 +135,7 @@ func (f *Frame) provStoreObl(p Ptr, v Val, why, pos string) {
 		return
 	}
 	var cs []string
-	for _, er := range s.extRefs {
+	for _, er := range ext {
 		cs = append(cs, not(eq(ref, er)))
 	}
 	if len(cs) == 0 {
